@@ -230,7 +230,7 @@ namespace {
       // Drucker(c=0) = sqrt(3 J2) = von Mises
       const auto s = toS<N>(st.sig);
       c.close(Drucker{0.}.template value<N>(s, 0.), ref::vonMises(st.sig),
-              128 * 8 * st.Einv() * st.vm, "C22.drucker.c0_is_mises", "Drucker(c=0) vs sqrt(3 J2)");
+              512 * 8 * st.Einv() * st.vm, "C22.drucker.c0_is_mises", "Drucker(c=0) vs sqrt(3 J2)");
     }
   }
 
@@ -247,7 +247,7 @@ namespace {
     if (cc == 0) {
       const auto s = toS<N>(st.sig);
       c.close(Cazacu2004Iso{0.}.template value<N>(s, 0.), ref::vonMises(st.sig) / std::sqrt(R(3)),
-              128 * 8 * st.Einv() * st.vm, "C22.cazacu2004iso.c0_is_sqrtJ2",
+              512 * 8 * st.Einv() * st.vm, "C22.cazacu2004iso.c0_is_sqrtJ2",
               "Cazacu2004(c=0) vs sqrt(J2)");
     }
   }
@@ -278,10 +278,10 @@ namespace {
       const auto a = Cazacu2001{k, cc}.template normal<N>(s, seps);
       const auto b = Drucker{cc}.template normal<N>(s, seps);
       const R E = o.amp * st.Einv();
-      c.close(std::get<0>(a), std::get<0>(b), 128 * E * std::fabs(std::get<0>(b)),
+      c.close(std::get<0>(a), std::get<0>(b), 512 * E * std::fabs(std::get<0>(b)),
               "C22.cazacu2001.isotropic_is_drucker", "Cazacu2001(a=b=1) vs Drucker: value");
       closeM(c, toM<N>(std::get<1>(a)), toM<N>(std::get<1>(b)),
-             128 * E * (1 + ref::norm(toM<N>(std::get<1>(b)))),
+             512 * E * (1 + ref::norm(toM<N>(std::get<1>(b)))),
              "C22.cazacu2001.isotropic_is_drucker", "Cazacu2001(a=b=1) vs Drucker: normal", N);
     }
   }
@@ -306,13 +306,13 @@ namespace {
       const auto a = Cazacu2004Ortho{k, cc}.template second<N>(s, seps);
       const auto b = Cazacu2004Iso{cc}.template second<N>(s, seps);
       const R E = o.amp * st.Einv();
-      c.close(std::get<0>(a), std::get<0>(b), 128 * E * std::fabs(std::get<0>(b)),
+      c.close(std::get<0>(a), std::get<0>(b), 512 * E * std::fabs(std::get<0>(b)),
               "C22.cazacu2004ortho.isotropic_is_iso", "ortho(a=b=1) vs isotropic: value");
       closeM(c, toM<N>(std::get<1>(a)), toM<N>(std::get<1>(b)),
-             128 * E * (1 + ref::norm(toM<N>(std::get<1>(b)))),
+             512 * E * (1 + ref::norm(toM<N>(std::get<1>(b)))),
              "C22.cazacu2004ortho.isotropic_is_iso", "ortho(a=b=1) vs isotropic: normal", N);
       constexpr int n = N == 1 ? 3 : (N == 2 ? 4 : 6);
-      const R t = 128 * E * (norm4<N>(std::get<2>(b)) + 1 / st.vm);
+      const R t = 512 * E * (norm4<N>(std::get<2>(b)) + 1 / st.vm);
       for (int i = 0; i < n; ++i)
         for (int j = 0; j < n; ++j)
           c.close(std::get<2>(a)(i, j), std::get<2>(b)(i, j), t,
